@@ -37,7 +37,8 @@ RULE = (
     "(thorough 3) plus k protocol errors then ok for k in 9..11; L2: every I/O step of a first run (every write, 3 torn offsets per write, "
     "rename, remove) as crash point, second run on the snapshot; L3: offset-table states and crash points on a 100,001-line file; L4: bundled "
     "document sets: document x archive x format x sizes; L5: external decompressor tools as environment {ok, dies midway, dies inside the "
-    "last line, fails immediately} x format x sizes x archive; a failed L1 run is followed by a second run on what it left behind. "
+    "last line, fails immediately} x format x sizes x archive; a failed L1 run is followed by a second run on what it left behind; L6: a whole challenge over three corpora (which ones it uses x "
+    "preparation tasks collected first, as the driver does, or run one at a time x formats) through DefaultTrackPreparator. "
     "non-trivial = a fault, a crash or a non-empty initial state; distinct = the configuration"
 )
 ASSUMPTIONS = [
@@ -753,6 +754,93 @@ def l5_check(case, res):
                       f"external decompressor {tool} format={fmt} declared={declared} archive={arch_state}: {v[1]}", {"layer": 5, "case": list(case)})
 
 
+# ------------------------------------------------------------------------------------------------ L6 the whole challenge (several corpora)
+
+
+def l6_cases():
+    """which corpora the challenge uses x how the preparation tasks are consumed (all collected first, as the driver's track preparation
+    actor does, or one at a time) x archive formats"""
+    for used in (("c1",), ("c2",), ("c1", "c2"), ("c2", "c1"), ("c1", "c2", "c3")):
+        for consume in ("collect-then-run", "one-at-a-time"):
+            for fmts in ((None, "gz"), ("bz2", None), ("zst", "bz2")):
+                yield (used, consume, fmts)
+
+
+def l6_check(case, res):
+    setup()
+    from esrally import config
+    from esrally.track import loader, track
+    from esrally.utils import net
+
+    used, consume, fmts = case
+    root = new_root()
+    docs = {"c1": DOC, "c2": b"".join(b'{"id": %d, "corpus": "second"}\n' % i for i in range(7)), "c3": b'{"id": 0, "c": 3}\n' * 3}
+    fmt_of = {"c1": fmts[0], "c2": fmts[1], "c3": None}
+    corpora, published = [], {}
+    for cname, body in docs.items():
+        fmt = fmt_of[cname]
+        arch = compress(fmt, body) if fmt else None
+        fname = f"{cname}-docs.json"
+        published[fname + (f".{fmt}" if fmt else "")] = arch if fmt else body
+        ds = track.Documents(track.Documents.SOURCE_FORMAT_BULK, document_file=fname, document_archive=f"{fname}.{fmt}" if fmt else None,
+                             base_url="http://example.org/corpora", number_of_documents=body.count(b"\n"),
+                             compressed_size_in_bytes=len(arch) if arch else None, uncompressed_size_in_bytes=len(body), target_index="idx")
+        corpora.append(track.DocumentCorpus(cname, [ds]))
+    tasks = [track.Task(f"bulk-{c}", track.Operation(f"bulk-{c}", "bulk", params={"bulk-size": 2, "corpora": [c]})) for c in used]
+    trk = track.Track(name="verif", corpora=corpora, challenges=[track.Challenge("c", default=True, schedule=tasks)])
+    cfg = config.Config()
+    cfg.add(config.Scope.application, "benchmarks", "local.dataset.cache", root)
+    cfg.add(config.Scope.application, "track", "test.mode.enabled", False)
+
+    class ByName:
+        def __init__(self):
+            self.requests = []
+
+        def __call__(self, method, url, **kw):
+            self.requests.append(url)
+            if len(self.requests) > 60:
+                raise RuntimeError("download loop does not terminate")
+            return FakeResponse("ok", published[url.rsplit("/", 1)[1]])
+
+    ep = ByName()
+    net._request = ep
+    v = None
+    exc = None
+    CLOCK.start()
+    try:
+        tp = loader.DefaultTrackPreparator()
+        tp.cfg, tp.downloader, tp.decompressor = cfg, loader.Downloader(False, test_mode=False), loader.Decompressor()
+        try:
+            if consume == "collect-then-run":
+                for f, params in list(tp.on_prepare_track(trk, root)):
+                    f(**params)
+            else:
+                for f, params in tp.on_prepare_track(trk, root):
+                    f(**params)
+        except Exception as e:  # noqa
+            exc = e
+            v = ("healthy-preparation-fails", f"{type(e).__name__}: {str(e)[:200]}")
+    finally:
+        CLOCK.stop()
+    if v is None:
+        for corpus in corpora:
+            if corpus.name not in used:
+                continue
+            g = good_state(os.path.join(root, corpus.name), corpus.documents[0], docs[corpus.name])
+            if g:
+                v = (f"corpus-not-prepared-{g[0]}", f"corpus {corpus.name} of a challenge that uses {list(used)}: {g[1]}")
+                break
+    shutil.rmtree(root, ignore_errors=True)
+    res.case(
+        case_repr={"layer": "L6", "corpora_used": list(used), "consumption": consume, "formats": list(fmts), "requests": len(ep.requests)} if res.sample_now(7) else None,
+        nontrivial_key=("L6", case),
+        outcome_key=("L6", len(ep.requests), v[0] if v else "ok"),
+    )
+    if v:
+        res.violation(f"prepare:{v[0]}:challenge", f"challenge using corpora {list(used)} ({consume}, formats {list(fmts)}): {v[1]}",
+                      {"layer": 6, "case": [list(used), consume, list(fmts)]})
+
+
 def _job(arg):
     layer, items = arg
     res = Result()
@@ -765,6 +853,8 @@ def _job(arg):
             l4_check(it, res)
         elif layer == 5:
             l5_check(it, res)
+        elif layer == 6:
+            l6_check(it, res)
         else:
             l3_check(it, res)
     return res
@@ -776,6 +866,7 @@ def run(tier, seed):
     l3 = l3_states()
     l4 = list(l4_cases())
     jobs = [(1, ch) for ch in par.chunks(l1, par.NPROC * 4)] + [(2, [c]) for c in l2] + [(3, [s]) for s in l3] + [(4, ch) for ch in par.chunks(l4, 8)] + [(5, ch) for ch in par.chunks(list(l5_cases()), 8)]
+    jobs += [(6, ch) for ch in par.chunks(list(l6_cases()), 8)]
     res = par.pmap(_job, jobs, seed=seed)
     res.extra["L1_cases"] = len(l1)
     res.extra["L2_histories"] = len(l2)
@@ -798,6 +889,9 @@ def replay(data):
         l4_check(tuple(data["case"]), res)
     elif data["layer"] == 5:
         l5_check(tuple(data["case"]), res)
+    elif data["layer"] == 6:
+        c = data["case"]
+        l6_check((tuple(c[0]), c[1], tuple(c[2])), res)
     else:
         l3_check(data["state"], res)
     return [v for lst in res.violations.values() for v in lst]
